@@ -97,6 +97,20 @@ Definition handle_species (cmd : string) (args : list sexp) : option sexp :=
                    bs (forallb (fun it : item => memb (list_eqb Ascii.eqb) (fst it) texts
                                                  && negb (Nat.eqb (List.length (fst it)) 0)) its);
                    bs (unambiguousb comps pn (positions 0 its));
+                   (* premises of C08.ice_species_counterpart when the first item is the surface symbol:
+                      group digits well formed, prefix text absent from the rest (charge signs included) *)
+                   match its with
+                   | (t0, d0) :: rest =>
+                       if list_eqb Ascii.eqb t0 (chars sfx) then
+                         let restc := skipn (List.length t0 + List.length d0) (chars (fst c)) in
+                         L [bs (group_okb d0 && no_occb (t0 ++ d0) restc
+                                && negb (String.eqb g "") && negb (String.eqb sfx "")
+                                && negb (memb String.eqb sfx (t_pseudo T))
+                                && match t_replacement T with [] => true | _ => false end);
+                            A (print_N (group_of d0)); A (str restc)]
+                       else A "none"
+                   | [] => A "none"
+                   end;
                    match items_loop T Y (([], []) :: its) st0 with
                    | inl er => put_perr er
                    | inr st => L [A "ok";
